@@ -11,6 +11,7 @@ import Driver.Debounce
 import Driver.CfgStore
 import Driver.Update
 import Driver.Form
+import Driver.Relay
 
 def main (args : List String) : IO UInt32 := do
   match args with
@@ -27,4 +28,5 @@ def main (args : List String) : IO UInt32 := do
   | ["cfgstore"] => Driver.CfgStoreDrv.main; return 0
   | ["update"] => Driver.UpdateDrv.main; return 0
   | ["form"] => Driver.FormDrv.main; return 0
+  | ["relay"] => Driver.RelayDrv.main; return 0
   | _ => IO.eprintln "usage: svdrv <subsystem>"; return 2
